@@ -462,7 +462,12 @@ class SemanticPointer(Fixed):
         vocabulary and allow the *source* to be interpreted as part of the
         vocabulary of any Semantic Pointer it is combined with.
         """
-        return SemanticPointer(self.v, vocab=vocab, name=self.name)
+        return SemanticPointer(
+            self.v,
+            vocab=vocab,
+            algebra=self.algebra if vocab is None else None,
+            name=self.name,
+        )
 
     def translate(self, vocab, populate=None, keys=None, solver=None):
         """
